@@ -388,8 +388,20 @@ def rule_O1(ctx):
                       "the stores into ord[] are not an exchange of two elements: %s" % [key(s[0]) for s in sts])
     # indices move towards each other and stop when they meet
     lp = [x for x in rv.walk() if x["k"] in ("while", "for")]
-    if lp and key(lp[0]["c"]) in ("(beg<end)", "(end>beg)"):
-        ctx.ok("dir_reverse", "swap loop runs while beg < end")
+    okb = False
+    if lp and lp[0].get("c") is not None and len(sts) == 2:
+        c0 = strip_casts(lp[0]["c"])
+        ia, ib = key(strip_casts(sts[0][1]["idx"])), key(strip_casts(sts[1][1]["idx"]))
+        if c0["k"] == "bin" and c0["op"] in ("<", ">"):
+            lo_, hi_ = (c0["l"], c0["r"]) if c0["op"] == "<" else (c0["r"], c0["l"])
+            lo_, hi_ = key(strip_casts(lo_)), key(strip_casts(hi_))
+            ups = {lv["name"] for n_, lv, op_, r_ in stores(lp[0]) if lv["k"] == "ref" and op_ in ("post++", "pre++")}
+            downs = {lv["name"] for n_, lv, op_, r_ in stores(lp[0]) if lv["k"] == "ref" and op_ in ("post--", "pre--")}
+            # the two swapped indices, the lower one rising and the upper one falling
+            if {lo_, hi_} == {ia, ib} and lo_ in ups and hi_ in downs and lo_ not in downs and hi_ not in ups:
+                okb = True
+    if okb:
+        ctx.ok("dir_reverse", "swap loop runs while the rising index is below the falling one")
     else:
         ctx.violation("dir_reverse", "swap loop bound", "loop condition %s" % (key(lp[0]["c"]) if lp else None))
     # identity initialisation before reordering in ren_position_reorder
